@@ -118,13 +118,22 @@ class PandasIndexFeaturesMixin:
                 fill_limit = limit
                 fill_tolerance = tolerance
 
+            # With no fill value given, use the default of the variable's dtype
+            # (0, False, ''), as the base class does: NaN has no counterpart
+            # for integer, boolean and string variables
+            variable_fill_value = fill_values.get(name, fill_value)
+            if variable_fill_value is None and not np.issubdtype(
+                self[name].dtype, np.floating
+            ):
+                variable_fill_value = np.zeros(1, dtype=self[name].dtype)[0]
+
             reindexed[name] = (
                 Series(self[name], index=self.span)
                 .reindex(
                     index=span,
                     method=fill_method,
                     copy=copy,
-                    fill_value=fill_values.get(name, fill_value),
+                    fill_value=variable_fill_value,
                     limit=fill_limit,
                     tolerance=fill_tolerance,
                 )
